@@ -86,11 +86,11 @@ Definition padd (p v : Z) : Z := wrap PTRDIFF_T (p + v).
 Definition psub (p v : Z) : Z := wrap PTRDIFF_T (p - v).
 
 (* SBEPP_SIZE_CHECK(begin, end, offset, size):
-     begin && ((offset + size) <= static_cast<std::size_t>(end - begin))
+     begin && begin <= end && ((offset + size) <= static_cast<std::size_t>(end - begin))
    ([need] is the value of offset + size, which is never negative here; views
    are never created from a null pointer in this model) *)
 Definition size_check (chk : bool) (b e need : Z) : bool :=
-  negb chk || (wrap SIZE_T need <=? wrap SIZE_T (e - b)).
+  negb chk || ((b <=? e) && (wrap SIZE_T need <=? wrap SIZE_T (e - b))).
 
 Definition gassert {A} (chk : bool) (c : bool) (k : outcome A) : outcome A :=
   if negb chk || c then k else GAssert.
